@@ -57,6 +57,13 @@ type Func struct {
 	Params  []string `json:"params"`
 	Body    []*Stmt  `json:"body"`
 	Catches []Catch  `json:"catches"`
+	Mod     int      `json:"mod"` // 0 = main file, k = k-th module file
+}
+
+// Module file of a multi-file program: its name (导入“name”) and the modules it imports itself
+type Module struct {
+	Name    string `json:"name"`
+	Imports []int  `json:"imports"`
 }
 
 type Prop struct {
@@ -79,6 +86,8 @@ type Prog struct {
 	Catches []Catch  `json:"catches"`
 	Inputs  []string `json:"inputs"`
 	EOL     string   `json:"eol"` // "" = LF, "crlf", "cr"
+	Mods    []Module `json:"mods"`    // module files (functions with Mod = k live in Mods[k-1])
+	Imports []int    `json:"imports"` // modules the main file imports
 }
 
 // Sym maps the ASCII symbols of the specification to glyphs.
@@ -340,9 +349,47 @@ func (r *R) body(params []string, body []*Stmt, catches []Catch, pfx []int, ind 
 	}
 }
 
-// Program renders the whole program. Returns source and path->line map.
+// Files renders a multi-file program: the main source, the module sources (by module name) and the
+// path->line map (the file of a path is the module of the function its first component names).
+func Files(p *Prog) (string, map[string]string, map[string]int) {
+	eol := "\n"
+	switch p.EOL {
+	case "crlf":
+		eol = "\r\n"
+	case "cr":
+		eol = "\r"
+	}
+	lmap := map[string]int{}
+	mods := map[string]string{}
+	for k, m := range p.Mods {
+		r := &R{Map: lmap}
+		for _, i := range m.Imports {
+			r.emit(0, "导入“"+p.Mods[i-1].Name+"”")
+		}
+		for fi, f := range p.Funcs {
+			if f.Mod != k+1 {
+				continue
+			}
+			r.emit(0, "如何"+Name(f.Name)+"？")
+			r.body(f.Params, f.Body, f.Catches, []int{fi + 1}, 1, true)
+			r.emit(0, "")
+		}
+		mods[m.Name] = strings.Join(r.lines, eol) + eol
+	}
+	main, _ := program(p, lmap)
+	return main, mods, lmap
+}
+
+// Program renders the whole (single-file) program. Returns source and path->line map.
 func Program(p *Prog) (string, map[string]int) {
-	r := &R{Map: map[string]int{}}
+	return program(p, map[string]int{})
+}
+
+func program(p *Prog, lmap map[string]int) (string, map[string]int) {
+	r := &R{Map: lmap}
+	for _, i := range p.Imports {
+		r.emit(0, "导入“"+p.Mods[i-1].Name+"”")
+	}
 	for ci, c := range p.Classes {
 		r.emit(0, "定义"+Name(c.Name)+"：")
 		for _, pr := range c.Props {
@@ -360,6 +407,9 @@ func Program(p *Prog) (string, map[string]int) {
 		}
 	}
 	for fi, f := range p.Funcs {
+		if f.Mod != 0 {
+			continue
+		}
 		r.emit(0, "如何"+Name(f.Name)+"？")
 		r.body(f.Params, f.Body, f.Catches, []int{fi + 1}, 1, true)
 		r.emit(0, "")
